@@ -34,8 +34,9 @@ Definition in_range (n : nat) (qs : list (nat * nat)) : Prop :=
 (** construction / edit steps about the [n] variables of the model *)
 Definition op_below (n : nat) (o : op) : Prop :=
   match o with
-  | AddEq a b | RemEq a b => a < n /\ b < n
+  | AddEq a b | RemEq a b | AddEq4 a b | IdOp a b => a < n /\ b < n
   | Expire a | RemAll a => a < n
+  | Reparse => True
   end.
 
 (** well-formedness of the weak lists, kept by every edit (GraphProofs.step_wf) *)
@@ -47,10 +48,11 @@ Definition wf (g : graph) : Prop := dead_empty g /\ symmetric g /\ nodup_lists g
 (** What an edit means for the connection graph (the edges after, in terms of the edges before). *)
 Definition spec_edge (g : graph) (o : op) (x y : nat) : Prop :=
   match o with
-  | AddEq a b => edge g x y \/
+  | AddEq a b | AddEq4 a b => edge g x y \/
                  (alive g a = true /\ alive g b = true /\ a <> b /\ ((x = a /\ y = b) \/ (x = b /\ y = a)))
   | RemEq a b => edge g x y /\ ~ ((x = a /\ y = b) \/ (x = b /\ y = a))
   | RemAll a | Expire a => edge g x y /\ x <> a /\ y <> a
+  | IdOp _ _ | Reparse => edge g x y
   end.
 
 (** Histories of edits and questions. *)
@@ -75,3 +77,19 @@ Definition ask_spec (g : graph) (k : qkind) (a b : nat) (r : bool) : Prop :=
 
 Definition answered (q : graph * qkind * nat * nat) (r : option bool) : Prop :=
   let '(g, k, a, b) := q in exists r0, r = Some r0 /\ ask_spec g k a b r0.
+
+(** The same history without its identifier operations: 4-argument adds become plain adds, identifier
+    edits and re-parsing disappear. *)
+Definition strip_op (o : op) : option op :=
+  match o with
+  | AddEq4 a b => Some (AddEq a b)
+  | IdOp _ _ | Reparse => None
+  | _ => Some o
+  end.
+
+Fixpoint strip_ids (h : list event) : list event :=
+  match h with
+  | [] => []
+  | Edit o :: t => match strip_op o with Some o' => Edit o' :: strip_ids t | None => strip_ids t end
+  | Ask k a b :: t => Ask k a b :: strip_ids t
+  end.
